@@ -134,6 +134,31 @@ func init() {
 		Outside:   "declared sizes above 8 (quick) after the sign check; buffers longer than L; stalls and resource exhaustion; the daemon's text protocol and option parser (covered by C07/C14 harnesses where built)",
 	})
 	reg(&Property{
+		ID: "C16",
+		Instances: func(tier string) []Instance {
+			out := []Instance{
+				inst("internal/sender", "HDeltaComplete", "n", 2, "kb", 2, "b", 1),
+				inst("internal/sender", "HDeltaComplete", "n", 3, "kb", 1, "b", 2),
+				inst("internal/sender", "HDeltaComplete", "n", 4, "kb", 2, "b", 2),
+				inst("internal/sender", "HDeltaComplete", "n", 5, "kb", 1, "b", 3),
+				inst("internal/sender", "HDeltaEdit", "p", 1, "s", 0, "kb", 1, "b", 2, "c", 0),
+			}
+			if tier == "thorough" {
+				out = append(out,
+					inst("internal/sender", "HDeltaComplete", "n", 3, "kb", 3, "b", 1),
+					inst("internal/sender", "HDeltaComplete", "n", 5, "kb", 2, "b", 2),
+					inst("internal/sender", "HDeltaComplete", "n", 6, "kb", 2, "b", 3),
+					inst("internal/sender", "HDeltaEdit", "p", 1, "s", 1, "kb", 2, "b", 2, "c", 0),
+					inst("internal/sender", "HDeltaEdit", "p", 2, "s", 0, "kb", 1, "b", 3, "c", 0),
+				)
+			}
+			return out
+		},
+		MustReach: []string{"identical", "match-found", "match-unaligned", "saved", "done"},
+		Bounds:    "arbitrary basis of kb full blocks of length b and arbitrary target of n bytes (all byte values incl. >= 0x80, all seeds), full-length strong sums: identical file => zero literal bytes; at every byte offset o (symbolic) where the window equals a basis block and no earlier reference overlaps, a block reference starts at o; target = P+basis+S => literal bytes <= |P|+|S|",
+		Outside:   "block lengths above 3, files above 6 bytes, real block sizes (700..131072) and the 256 KiB window",
+	})
+	reg(&Property{
 		ID: "C17",
 		Instances: func(tier string) []Instance {
 			out := []Instance{}
